@@ -17,4 +17,9 @@ EXPLAIN = {}
 
 
 def extra_checks(prop, tier, seed):
+    """bounded stand-ins (labelled bounded in the evidence, never counted as proved)"""
+    if prop in ("C01", "C03"):
+        from pyvc import bounded
+
+        return bounded.float_to_str_contract(prop, tier, seed)
     return None
